@@ -591,7 +591,35 @@ fn canaries() {
     if pom_url("https://h/m2", &Gav::new("org.a.b", "x-y", "1.0")) != "https://h/m2/org/a/b/x-y/1.0/x-y-1.0.pom" || pom_url("https://h/m2/", &Gav::new("g", "a", "2")) != "https://h/m2/g/a/2/a-2.pom" { bad("repository layout"); }
 }
 
+/// cases of the Miri slice the thorough tier asks for (measured: see NOTES.md)
+const MIRI_CASES: usize = 15;
+
+/// `c19 --miri-slice <seed> <cases> <max seconds>`: single-threaded, no files, no network: two of three cases are universes of the
+/// smallest size class (3-6 POMs rendered as XML, parsed by serde-xml-rs, served by the in-memory downloader - every fourth
+/// with downloads that stay pending for a few polls -, resolved by the real `get_maven_dependencies`, compared with the
+/// reference resolver; the fault-exposure bookkeeping of the harness is skipped), the third is a text round trip of
+/// coordinates / scopes / resolved dependencies. The resolver has no `unsafe` of its own; the slice checks its dependencies
+/// (serde-xml-rs, xml-rs, the hand-polled futures) and the harness' `block_on` under the interpreter.
+fn miri_slice(seed: u64, cases: usize, max_s: u64) -> i32 {
+    let mut rep = Report::new();
+    let deadline = std::time::Instant::now() + std::time::Duration::from_secs(max_s);
+    // case numbers of the smallest size class (n % 10 < 2) that skip the fault bookkeeping in thorough mode (n % 3 != 0)
+    let small: Vec<u64> = (0..2000u64).filter(|n| n % 10 < 2 && n % 3 != 0).collect();
+    let mut i = 0u64;
+    while (i as usize) < cases && std::time::Instant::now() < deadline {
+        let mut rng = Rng::new(common::rng::case_seed(seed, "C19/miri", i));
+        rep.cur = ("miri".into(), i);
+        if i == 0 { scope_text(&mut rep); }
+        if i % 3 == 2 { text_case(&mut rng, &mut rep) } else { universe_case(&mut rng, &mut rep, small[(i as usize) % small.len()], true) }
+        i += 1;
+    }
+    for v in rep.violations.values() { println!("SLICE-OBSERVATION {} ({}x)", v.signature, v.count); }
+    println!("MIRI-SLICE done cases={} (asked for {}) evaluations={} observations={} universes_resolved={} download_requests={}", i, cases, rep.evaluations, rep.violations.len(), rep.get("outcome.equal"), rep.get("downloads.requests"));
+    0
+}
+
 fn main() {
+    if let Some((seed, n, max_s)) = common::miri::slice_args() { std::process::exit(miri_slice(seed, n, max_s)); }
     let mut ctx = Ctx::from_args("C19", 30, 400);
     let replay = load_replay(&mut ctx);
     canaries();
@@ -641,6 +669,11 @@ fn main() {
             ["jar", "ejb", "maven-plugin", "bundle", "test-jar", "ejb-client", "java-source", "javadoc", "war", "pom"].iter().all(|t| rep.sets.get("types").is_some_and(|s| s.contains(*t))));
         meta.oblige("no universe was skipped because the documentation leaves an import precedence open (the generator avoids them)", rep.get("skipped.open_import_precedence") * 50 <= rep.get("cases.universes").max(1));
         meta.oblige("fewer than 2% of the universes skipped as too big to expand", rep.get("skipped.unmediated_tree_too_big") * 50 <= rep.get("cases.universes").max(1));
+        if ctx.tier == Tier::Thorough {
+            let r = common::miri::run_slice(&ctx, "c19", env!("CARGO_MANIFEST_DIR"), MIRI_CASES, 170, 285);
+            if let Some(line) = r.ub { rep.cur = ("miri".into(), 0); rep.violation(format!("miri: {line}"), json!({"how": format!("cargo +nightly miri run --offline -p c19 -- --miri-slice <seed> {MIRI_CASES} 170"), "seed": ctx.seed as i64, "status": r.status})); }
+            meta.extra.insert("miri_slice".into(), json!(r.status));
+        } else { meta.extra.insert("miri_slice".into(), json!("not run in the quick tier")); }
     }
     std::process::exit(finish(&ctx, rep, meta));
 }
